@@ -262,7 +262,7 @@ pub fn explore(g: &Gadget, h: &Honest, devs: &[Dev], expected_outs: Option<&[Fe]
         unsat_samples: vec![],
         panics: vec![],
     };
-    let mut seen_comp = std::collections::HashSet::new();
+    let mut seen_comp: std::collections::HashSet<Vec<usize>> = std::collections::HashSet::new();
     for d in devs {
         ex.n_devs += 1;
         match run_dev(g, h, d) {
@@ -288,15 +288,27 @@ pub fn explore(g: &Gadget, h: &Honest, devs: &[Dev], expected_outs: Option<&[Fe]
                             }
                         }
                     }
-                } else if let m1::Verdict::Rows { gate_fails, .. } = &verdict {
-                    if let Some((_, comp)) = gate_fails.first() {
-                        if seen_comp.insert(*comp) {
-                            ex.unsat_samples.push((*comp, d.clone()));
+                } else if let m1::Verdict::Rows { gate_fails, copy_fails } = &verdict {
+                    // one sample per distinct SET of failing components, so
+                    // that assignments violating a single component (the ones a
+                    // weakened prover would let through) get replayed
+                    let mut set: Vec<usize> = gate_fails.iter().map(|(_, c)| *c).collect();
+                    set.sort();
+                    set.dedup();
+                    if !copy_fails.is_empty() {
+                        set.push(99);
+                    }
+                    if let Some(first) = set.first().copied() {
+                        if seen_comp.insert(set.clone()) {
+                            let key = if set.len() == 1 { first } else { 100 + first };
+                            ex.unsat_samples.push((key, d.clone()));
                         }
                     }
                 }
             }
         }
     }
+    // singletons first
+    ex.unsat_samples.sort_by_key(|(k, _)| *k);
     ex
 }
